@@ -1,5 +1,6 @@
 import MobiusModel.Authz
 import MobiusModel.Generated.Handlers
+import MobiusModel.Generated.AccessGuards
 import MobiusModel.Generated.Consts
 /-!
   C06 — No privilege amplification; protected users cannot be kicked.
@@ -154,5 +155,25 @@ theorem create_follows_loop :
 theorem c06_constants : Generated.accessConsts.lookup "AccessCannotBeDiscon" = some Priv.cannotBeDiscon ∧
     Generated.accessConsts.lookup "AccessCreateUser" = some Priv.createUser ∧
     Generated.accessConsts.lookup "AccessDisconUser" = some Priv.disconUser := by decide
+
+/-- Both creation paths are, statement by statement, what `newUser` / `updateUserCreate` model: a zeroed bitmap,
+    `copy(newAccess[:], <access field>.Data)`, the loop `for i := 0; i < 64; i++` refusing on
+    `newAccess.IsSet(i) && !cc.Authorize(i)`, and only then the account built from `newAccess`. -/
+theorem creation_paths_shape : Generated.ampFlow = [
+    ("HandleNewUser", ["var newAccess AccessBitmap",
+      "copy(newAccess[:], t.GetField(FieldUserAccess).Data)",
+      "for i := 0; i < 64; i++ { if newAccess.IsSet(i) { if !cc.Authorize(i) { return cc.NewErrReply(t, \"Cannot create account with more access than yourself.\") } } }",
+      "account := NewAccount(login, string(t.GetField(FieldUserName).Data), string(t.GetField(FieldUserPassword).Data), newAccess)"]),
+    ("HandleUpdateUser", ["var newAccess AccessBitmap",
+      "copy(newAccess[:], GetField(FieldUserAccess, &subFields).Data)",
+      "for i := 0; i < 64; i++ { if newAccess.IsSet(i) { if !cc.Authorize(i) { return cc.NewErrReply(t, \"Cannot create account with more access than yourself.\") } } }",
+      "account := NewAccount( userLogin, string(GetField(FieldUserName, &subFields).Data), string(GetField(FieldUserPassword, &subFields).Data), newAccess, )"])] := by
+  decide
+
+/-- HandleDisconnectUser, statement by statement: requester guard, target lookup, protected-target guard,
+    and only then the ban block, the delayed disconnect and the reply – the order `disconnectTarget` models. -/
+theorem disconnect_shape : Generated.disconnectFlow =
+    ["guard-requester:AccessDisconUser", "assign:clientID", "assign:clientConn",
+     "guard:clientConn.Authorize(AccessCannotBeDiscon)", "ban-block", "go:Disconnect", "return"] := by decide
 
 end Mobius.C06
